@@ -61,7 +61,8 @@ func runC35(c *an.Ctx) {
 			okOps := false
 			for _, val := range an.FindValues(add, price.MatchValue) {
 				b := val.(*ssa.BinOp)
-				if strings.HasPrefix(an.AccessPath(b.X), "trans.") && dependsOnOldPrice(b.Y, 0) {
+				// the new transaction: addEIPTxPool's own parameter (whatever it is called)
+				if strings.HasPrefix(an.AccessPath(b.X), add.Params[1].Name()+".") && dependsOnOldPrice(b.Y, 0) {
 					okOps = true
 				}
 			}
@@ -79,7 +80,7 @@ func runC35(c *an.Ctx) {
 				if cv, isC := a.(*ssa.Convert); isC {
 					a = cv.X
 				}
-				if an.AccessPath(a) == "trans.Nonce" {
+				if an.AccessPath(a) == add.Params[1].Name()+".Nonce" {
 					okNonce = true
 				}
 			}
@@ -238,7 +239,8 @@ func runC35(c *an.Ctx) {
 				return false
 			}
 			b, isB := mu.Value.(*ssa.BinOp)
-			return isB && b.Op == token.ADD && an.AccessPath(mu.Map) == "nonceCtx"
+			// the nonce context: Verify's map parameter (whatever it is called)
+			return isB && b.Op == token.ADD && an.AccessPathIn(vf, mu.Map) == vf.Params[len(vf.Params)-1].Name()
 		}
 		v = an.GuardedX(c.P, vf, []*an.Guard{nonce}, extra, adv, false)
 		c.Check(v.Holds && v.ActionSites == 1, "guard|IncrementValidator.Verify|advance-after-test", "the expected nonce advances to nonce+1 only for an accepted transaction", c.P.Rel(vf.Pos()), v.Witness)
